@@ -19,7 +19,7 @@ TRUST = ["g++ -fsyntax-only and the SUNDIALS / Boost stand-in headers (harness/c
          "the fixed names of Model.Symbols.fixed_names are transcribed from naunet_constants.cpp.j2 / naunet_physics.h.j2 / libm"]
 CXX = fw.VERIF / "harness" / "cxx"
 R = fw.REPO
-DIAG = re.compile(r"error: (.*(?:was not declared|not declared in this scope|redeclaration|redefinition|conflicting declaration|has not been declared|does not name a type).*)")
+DIAG = re.compile(r"error: (.*(?:was not declared|not declared in this scope|redeclaration|redefinition|conflicting declaration|has not been declared|does not name a type|struct NaunetData. has no member named).*)")
 
 T = ReactionType
 
